@@ -195,7 +195,7 @@ class dhcp(packet_base):
             # Assume chaddr is ethernet
             self.chaddr = EthAddr(self.chaddr[:6])
         self.sname = raw[44:108]
-        self.file = raw[102:236]
+        self.file = raw[108:236]
         self.magic = raw[236:240]
 
         self.hdr_len = dlen
@@ -236,6 +236,7 @@ class dhcp(packet_base):
                 self.warn('DHCP overload option has bad len %u' %
                           (len(opt_val),))
                 return
+            opt_val = opt_val[0]
             if opt_val == 1 or opt_val == 3:
                 self.parseOptionSegment(self.file)
             if opt_val == 2 or opt_val == 3:
@@ -245,7 +246,7 @@ class dhcp(packet_base):
         ofs = 0;
         l = len(barr)
         while ofs < l:
-            opt = ord(barr[ofs])
+            opt = barr[ofs]
             if opt == dhcp.END_OPT:
                 return
             ofs += 1
@@ -254,7 +255,7 @@ class dhcp(packet_base):
             if ofs >= l:
                 self.warn('DHCP option ofs extends past segment')
                 return
-            opt_len = ord(barr[ofs])
+            opt_len = barr[ofs]
             ofs += 1         # Account for the length octet
             if ofs + opt_len > l:
                 return False
@@ -269,12 +270,10 @@ class dhcp(packet_base):
     def packOptions (self):
         o = b''
         def addPart (k, v):
-            o = b''
-            o += chr(k)
-            o += chr(len(v))
+            o = bytes([k, len(v)])
             o += bytes(v)
             if len(o) & 1: # Length is not even
-                o += chr(dhcp.PAD_OPT)
+                o += bytes([dhcp.PAD_OPT])
             return o
 
         for k,v in self.options.items():
@@ -290,7 +289,7 @@ class dhcp(packet_base):
                     o += addPart(k, part)
             else:
                 o += addPart(k, v)
-        o += chr(dhcp.END_OPT)
+        o += bytes([dhcp.END_OPT])
         self._raw_options = o
 
         if isinstance(self.options, util.DirtyDict):
@@ -329,12 +328,12 @@ class dhcp(packet_base):
         to add them to the .options dictionary.
         """
 
-        self._raw_options += chr(code)
+        self._raw_options += bytes([code])
         if length is None:
             if val is None:
                 return
             length = len(val)
-        self._raw_options += chr(length)
+        self._raw_options += bytes([length])
         self._raw_options += val
 
     @property
@@ -485,11 +484,11 @@ class DHCPMsgTypeOption (DHCPOption):
   def unpack (cls, data, code = None):
     self = cls()
     if len(data) != 1: raise RuntimeError("Bad option length")
-    self.type = ord(data[0])
+    self.type = data[0]
     return self
 
   def pack (self):
-    return chr(self.type)
+    return bytes([self.type])
 
   def __repr__ (self):
     t = {
@@ -553,11 +552,11 @@ class DHCPOptionOverloadOption (DHCPOption):
   def unpack (cls, data, code = None):
     self = cls()
     if len(data) != 1: raise RuntimeError("Bad option length")
-    self.value = ord(data[0])
+    self.value = data[0]
     return self
 
   def pack (self):
-    return chr(self.value)
+    return bytes([self.value])
 
   def __repr__ (self):
     return "%s(%s)" % (self._name, self.value)
@@ -586,12 +585,12 @@ class DHCPParameterRequestOption (DHCPOption):
   @classmethod
   def unpack (cls, data, code = None):
     self = cls()
-    self.options = [ord(x) for x in data]
+    self.options = list(data)
     return self
 
   def pack (self):
     opt = ((o.CODE if is_subclass(o, DHCPOption) else o) for o in self.options)
-    return b''.join(chr(x) for x in opt)
+    return bytes(opt)
 
   def __repr__ (self):
     names = []
